@@ -336,4 +336,178 @@ theorem opMul_spec (x y : W) : Gen.opMul x.toNat y.toNat = (Spec.mul x y).toNat 
 theorem opSub_spec (x y : W) : Gen.opSub x.toNat y.toNat = (Spec.sub x y).toNat := by
   simp only [Gen.opSub, Big.sub, U256_eq, Spec.sub, ofInt_toNat]
 
+theorem wordsNat_get (w : Nat) : ∀ (fuel n j : Nat), n < 2^(w*fuel) →
+    (Big.wordsNat w fuel n)[j]? = if n / 2^(w*j) = 0 then none else some ((n / 2^(w*j) % 2^w : Nat) : Int) := by
+  intro fuel
+  induction fuel with
+  | zero =>
+    intro n j h
+    have : n = 0 := by simpa using h
+    subst this
+    simp [Big.wordsNat]
+  | succ f ih =>
+    intro n j h
+    unfold Big.wordsNat
+    by_cases h0 : n = 0
+    · subst h0; simp
+    · rw [if_neg h0]
+      cases j with
+      | zero => simp [h0]
+      | succ j' =>
+        have hlt : n / 2^w < 2^(w*f) := by
+          apply Nat.div_lt_of_lt_mul
+          rw [← Nat.pow_add]
+          have : w + w * f = w * (f+1) := by ring
+          rw [this]; exact h
+        rw [List.getElem?_cons_succ, ih (n / 2^w) j' hlt]
+        have : n / 2^w / 2^(w*j') = n / 2^(w*(j'+1)) := by
+          rw [Nat.div_div_eq_div_mul, ← Nat.pow_add]
+          congr 2; ring
+        rw [this]
+
+theorem bits_get (v j : Nat) :
+    (Big.bits (v:Int))[j]? = if v / 2^(64*j) = 0 then none else some ((v / 2^(64*j) % 2^64 : Nat) : Int) := by
+  unfold Big.bits
+  rw [Int.natAbs_natCast]
+  apply wordsNat_get
+  have h1 : v < 2^(v.log2 + 1) := Nat.lt_log2_self
+  exact Nat.lt_of_lt_of_le h1 (Nat.pow_le_pow_right (by norm_num) (by omega))
+
+theorem byte_extract (A k : Nat) (hk : k ≤ 56) : A % 2^64 / 2^k % 2^8 = A / 2^k % 2^8 := by
+  have e : (2:Nat)^64 = 2^k * 2^(64-k) := by rw [← Nat.pow_add]; congr 1; omega
+  rw [e, Nat.mod_mul_right_div_self]
+  apply Nat.mod_mod_of_dvd
+  exact Nat.pow_dvd_pow 2 (by omega)
+
+theorem wordBytes_eq : Gen.wordBytes = 8 := rfl
+
+theorem bigEndianByteAt_eq (v n : Nat) (hn : n < 2^32) :
+    Gen.bigEndianByteAt (v:Int) (n:Int) = ((v / 256^n % 256 : Nat) : Int) := by
+  have hi : Int.tdiv (n:Int) 8 = ((n / 8 : Nat) : Int) := by
+    rw [Int.tdiv_eq_ediv_of_nonneg (by omega)]; norm_cast
+  have hr : Int.tmod (n:Int) 8 = ((n % 8 : Nat) : Int) := by
+    rw [Int.tmod_eq_emod_of_nonneg (by omega)]; norm_cast
+  have hsh : Big.wrapU64 (8 * Big.wrapU64 ((n % 8 : Nat) : Int)) = ((8 * (n % 8) : Nat) : Int) := by
+    simp only [Big.wrapU64]; omega
+  -- the target value through the word that contains the byte
+  have key : v / 256^n % 256 = v / 2^(64*(n/8)) % 2^64 / 2^(8*(n%8)) % 2^8 := by
+    rw [byte_extract _ _ (by omega), Nat.div_div_eq_div_mul, ← Nat.pow_add]
+    have : (256:Nat)^n = 2^(64*(n/8) + 8*(n%8)) := by
+      rw [show (256:Nat) = 2^8 by norm_num, ← Nat.pow_mul]; congr 1; omega
+    rw [this]; norm_num
+  simp only [Gen.bigEndianByteAt, wordBytes_eq, hi, hr, hsh, Big.len, Big.idx]
+  have hget := bits_get v (n/8)
+  by_cases hlen : ((n/8 : Nat) : Int) ≥ Int.ofNat (Big.bits (v:Int)).length
+  · rw [if_pos hlen]
+    have : (Big.bits (v:Int)).length ≤ n / 8 := by
+      simp only [Int.ofNat_eq_natCast] at hlen; omega
+    have hnone := List.getElem?_eq_none this
+    rw [hnone] at hget
+    have hz : v / 2^(64*(n/8)) = 0 := by
+      by_contra hne; rw [if_neg hne] at hget; cases hget
+    rw [key, hz]; simp [Big.wrapU8]
+  · rw [if_neg hlen]
+    have : n / 8 < (Big.bits (v:Int)).length := by
+      simp only [Int.ofNat_eq_natCast] at hlen; omega
+    have hsome := List.getElem?_eq_getElem this
+    have hnz : ¬ v / 2^(64*(n/8)) = 0 := by
+      intro hz; rw [if_pos hz, hsome] at hget; cases hget
+    rw [if_neg hnz] at hget
+    have hneg : ¬ ((n/8 : Nat) : Int) < 0 := by omega
+    rw [if_neg hneg, Int.toNat_natCast, hget, key]
+    simp only [Big.rsh, Int.toNat_natCast, Int.shiftRight_eq_div_pow, Big.wrapU8]
+    norm_cast
+    omega
+
+theorem int64_small (n : Nat) (h : n < 2^63) : Big.int64 (n:Int) = n := by
+  simp only [Big.int64, Big.uint64, Big.wrapI64, Int.natAbs_natCast, Int.ofNat_eq_natCast]
+  have : ¬ ((n:Int) < 0) := by omega
+  rw [if_neg this]
+  omega
+
+theorem opByte_spec (i x : W) : Gen.opByte i.toNat x.toNat = (Spec.byte i x).toNat := by
+  simp only [Gen.opByte, cmp_lt, Big32_eq, wrapU64_0, Spec.byte]
+  by_cases h : i.toNat < 32
+  · have h' : (i.toNat : Int) < 32 := by omega
+    rw [if_pos h', if_pos h, int64_small _ (by omega)]
+    have e1 : Big.wrapI64 (Big.wrapI64 (i.toNat : Int)) = i.toNat := by simp only [Big.wrapI64]; omega
+    have e2 : Big.wrapI64 32 = 32 := by decide
+    rw [e1, e2]
+    simp only [Gen.Byte]
+    rw [if_neg (by omega)]
+    have e3 : Big.wrapI64 (Big.wrapI64 (Big.wrapI64 (32 - 1) - (i.toNat : Int))) = ((31 - i.toNat : Nat) : Int) := by
+      simp only [Big.wrapI64]; omega
+    rw [e3, bigEndianByteAt_eq _ _ (by omega)]
+    simp only [BitVec.toNat_ofNat]
+    have hb : x.toNat / 256 ^ (31 - i.toNat) % 256 < 256 := Nat.mod_lt _ (by norm_num)
+    generalize x.toNat / 256 ^ (31 - i.toNat) % 256 = b at hb
+    simp only [Big.wrapU64, Big.wrapU8]
+    omega
+  · have h' : ¬ (i.toNat : Int) < 32 := by omega
+    rw [if_neg h', if_neg h]; rfl
+
+theorem or_not_mask (n k : Nat) : Big.or (n:Int) (Big.not ((2:Int)^k - 1)) = ((n % 2^k : Nat) : Int) - 2^k := by
+  have h1 : 1 ≤ 2^k := Nat.one_le_two_pow
+  have e : Big.not ((2:Int)^k - 1) = Int.negSucc (2^k - 1) := by
+    rw [Int.negSucc_eq]; simp only [Big.not]; push_cast [Nat.cast_sub h1]; ring
+  rw [e]
+  show Int.negSucc (Big.andNotNat (2^k - 1) n) = _
+  rw [andNot_mask, Int.negSucc_eq]
+  have hlt : n % 2^k < 2^k := Nat.mod_lt _ (Nat.two_pow_pos k)
+  have h2 : n % 2^k ≤ 2^k - 1 := by omega
+  push_cast [Nat.cast_sub h2, Nat.cast_sub h1]
+  ring
+
+theorem and_mask_nat (n k : Nat) : Big.and (n:Int) ((2:Int)^k - 1) = ((n % 2^k : Nat) : Int) := by
+  rw [and_mask]; norm_cast
+
+theorem bit_natCast (n k : Nat) : Big.bit (n:Int) (k:Int) > 0 ↔ n.testBit k = true := by
+  simp only [Big.bit]
+  rw [if_neg (by omega)]
+  show (if n.testBit (k:Int).toNat then (1:Int) else 0) > 0 ↔ _
+  rw [Int.toNat_natCast]
+  split_ifs with h <;> simp [h]
+
+theorem opSignExtend_spec (b x : W) : Gen.opSignExtend b.toNat x.toNat = (Spec.signextend b x).toNat := by
+  simp only [Gen.opSignExtend, cmp_lt, Spec.signextend, Big1_eq]
+  have e31 : Big.wrapI64 31 = 31 := by decide
+  rw [e31]
+  by_cases h : 31 ≤ b.toNat
+  · rw [if_neg (by omega), if_pos h]
+  · rw [if_pos (by omega), if_neg h]
+    have hbit : Big.wrapU64 (Big.wrapU64 (Big.wrapU64 (Big.uint64 (b.toNat:Int) * 8) + 7)) = ((8 * b.toNat + 7 : Nat) : Int) := by
+      simp only [Big.wrapU64, Big.uint64, Int.natAbs_natCast, Int.ofNat_eq_natCast]; omega
+    have hbit' : Big.wrapI64 ((8 * b.toNat + 7 : Nat) : Int) = ((8 * b.toNat + 7 : Nat) : Int) := by
+      simp only [Big.wrapI64]; omega
+    rw [hbit, hbit']
+    simp only [bit_natCast]
+    simp only [Big.lsh, Big.sub, Int.toNat_natCast, Int.one_mul, or_not_mask, and_mask_nat, U256_eq]
+    generalize hk : 8 * b.toNat + 7 = k
+    have hK : 8 * (b.toNat + 1) = k + 1 := by omega
+    simp only [hK, Nat.add_sub_cancel]
+    have hk247 : k ≤ 247 := by omega
+    have hsucc : x.toNat % 2^(k+1) = x.toNat % 2^k + 2^k * (x.toNat / 2^k % 2) := Nat.mod_pow_succ
+    have htb : x.toNat.testBit k = decide (x.toNat / 2^k % 2 = 1) := Nat.testBit_eq_decide_div_mod_eq
+    have hlt : x.toNat % 2^k < 2^k := Nat.mod_lt _ (Nat.two_pow_pos k)
+    have hP : (2:Nat)^k * 2 ≤ 2^256 := by
+      rw [← Nat.pow_succ]; exact Nat.pow_le_pow_right (by norm_num) (by omega)
+    have hP2 : (2:Int)^(k+1) = 2^k * 2 := by rw [pow_succ]
+    by_cases hb : x.toNat / 2^k % 2 = 1
+    · have : x.toNat.testBit k = true := by rw [htb]; simpa using hb
+      rw [if_pos this]
+      rw [hb, Nat.mul_one] at hsucc
+      rw [if_neg (by omega), ofInt_toNat, hsucc]
+      push_cast
+      rw [hP2]
+      generalize (2:Int)^k = P
+      generalize (x.toNat : Int) % P = r
+      have e : r + P - P * 2 = r - P := by ring
+      rw [e]
+    · have hb0 : x.toNat / 2^k % 2 = 0 := by omega
+      have : ¬ x.toNat.testBit k = true := by rw [htb]; simpa using hb
+      rw [if_neg this]
+      rw [hb0, Nat.mul_zero, Nat.add_zero] at hsucc
+      rw [if_pos (by omega), BitVec.toNat_ofNat, hsucc]
+      push_cast; rfl
+
 end YouVerif.C15.Proofs
